@@ -2,6 +2,8 @@ import PcfgVerif.Properties.ReproCore
 import PcfgVerif.Properties.PQCore
 import PcfgVerif.Properties.ReproEndToEnd
 import PcfgVerif.Lemmas.TrainedListedE
+import PcfgVerif.Lemmas.TrainedAgreeF
+import PcfgVerif.Lemmas.ScoreB7
 import PcfgVerif.Properties.DetectCoreC
 /-!
 # C03 — every supported training password is reproduced by the trained grammar
@@ -115,6 +117,43 @@ example : Detect.AllListed 0
     (Detect.parse Detect.asciiC {} (Trainer.pass1 Detect.asciiC {} [cpsOfString "Pass12!", cpsOfString "abcd"])
       (cpsOfString "Pass12!")) :=
   Trainer.trained_all_listed Detect.asciiC {} [cpsOfString "Pass12!", cpsOfString "abcd"] _ (by decide) (1/2)
+    (by decide +kernel) (by decide +kernel) (by decide +kernel)
+
+/-- **C03 inside the model, from the training list to the guess, with no hypothesis about the ruleset** (`Lemmas/TrainedAgreeA…F.lean`).
+`Trainer.viewOf` is the guesser's grammar of the trained ruleset: every written list cut into its maximal runs of equal probability
+(the groups `_load_from_file` forms, `C07_guesser_roundtrip`), under the guesser's variable names, and every line of `grammar.txt`
+tokenised by the guesser's own tokeniser with `C<n>` inserted after `A<n>` (`splitStructure`, `insertCase`: the loader model of C14).
+`Agree` between that grammar and the scorer's lists is now a theorem (`Trainer.trained_agree`): a value the scorer finds with a
+non-zero probability lies in a run of exactly that probability; tokenising the joined labels gives the labels back; every mask filed
+under length n has n letters.  So: every password of the training list whose parse is supported and has no e-mail / website part is a
+guess of a pre-terminal of the grammar the guesser loads — for every list, every coverage in (0, 1], every Unicode environment with
+length-preserving lower-casing; remaining hypotheses are the domain clause `CaseInvAll` and that the tokeniser's `isalpha` is true
+on `A`–`Z` and false on `0`–`9`. -/
+theorem C03_trained_end_to_end (U : Detect.UEnv) (upper : Char → List Char) (cfg : Detect.MWCfg) (pws : List CPs)
+    (pw : CPs) (hmem : pw ∈ pws) (cov : Rat) (h0 : 0 < cov) (h1 : cov ≤ 1)
+    (isAlpha : Nat → Bool) (hcap : ∀ c, 65 ≤ c → c ≤ 90 → isAlpha c = true) (hdig : ∀ c, 48 ≤ c → c ≤ 57 → isAlpha c = false)
+    (hne : pw ≠ []) (hl : Detect.LenPres U pw) (hsc : Detect.ScalarCPs pw) (hcase : Detect.CaseInvAll U upper pw)
+    (he : (Detect.parse U cfg (Trainer.pass1 U cfg pws) pw).emails = [])
+    (hw : (Detect.parse U cfg (Trainer.pass1 U cfg pws) pw).websites = [])
+    (hs : (Detect.parse U cfg (Trainer.pass1 U cfg pws) pw).supported = true) :
+    ∃ (reps : List String) (bp : Rat) (idx : List Nat),
+      (reps, bp) ∈ (Trainer.viewOf isAlpha cov pws.length (Trainer.train U cfg pws)).bases ∧ idx.length = reps.length ∧
+      Detect.toStr pw ∈ productSpec upper (Trainer.viewOf isAlpha cov pws.length (Trainer.train U cfg pws)).E [] (Detect.mkPT reps idx) :=
+  C03_trained_reproduced U upper cfg pws pw hmem cov h0 h1 hne hl hsc hcase _
+    (Trainer.trained_agree isAlpha hcap hdig cov pws.length _
+      (Trainer.train_lenok U cfg (·.masks) (·.masks) (fun _ _ => rfl) rfl pws)) he hw hs
+
+/-- non-vacuity of the end-to-end theorem: ASCII environment, the list `Ab1`, `zz9`, coverage 1/2 — every hypothesis is discharged
+(by kernel evaluation where it is a computation), so `Ab1` is a guess of the grammar trained on the two passwords -/
+example : ∃ (reps : List String) (bp : Rat) (idx : List Nat),
+    (reps, bp) ∈ (Trainer.viewOf Detect.asciiU.isAlpha (1/2) 2
+      (Trainer.train Detect.asciiU {} [ScoreB.Ex.pwEx, [122, 122, 57]])).bases ∧ idx.length = reps.length ∧
+    Detect.toStr ScoreB.Ex.pwEx ∈ productSpec ScoreB.Ex.upEx (Trainer.viewOf Detect.asciiU.isAlpha (1/2) 2
+      (Trainer.train Detect.asciiU {} [ScoreB.Ex.pwEx, [122, 122, 57]])).E [] (Detect.mkPT reps idx) :=
+  C03_trained_end_to_end Detect.asciiU ScoreB.Ex.upEx {} [ScoreB.Ex.pwEx, [122, 122, 57]] ScoreB.Ex.pwEx (by decide) (1/2)
+    (by decide +kernel) (by decide +kernel) Detect.asciiU.isAlpha
+    (by intro c a b; simp [Detect.asciiU, a, b]) (by intro c a b; simp [Detect.asciiU]; omega)
+    (by decide) (Detect.asciiU_lenPres _) ScoreB.Ex.scalar_ex ScoreB.Ex.caseInv_ex
     (by decide +kernel) (by decide +kernel) (by decide +kernel)
 
 end Pcfg.C03
